@@ -72,7 +72,7 @@ fn load_interface_from_paths(
                 err
             ))
         })?;
-        let unit: InterfaceUnit = serde_json::from_str(&json).map_err(|err| {
+        let unit: InterfaceUnit = from_json_any_depth(&json).map_err(|err| {
             compile_error(format!(
                 "failed to parse interface {}: {}",
                 candidate.display(),
@@ -111,6 +111,17 @@ fn load_interface_from_paths(
             .collect::<Vec<_>>()
             .join(", ")
     )))
+}
+
+/// Artifacts nest one JSON level or two per statement and per operator of a function body:
+/// serde_json's default limit of 128 levels rejects a function of some 60 statements that
+/// whole-program compilation accepts.
+fn from_json_any_depth<T: serde::de::DeserializeOwned>(json: &str) -> serde_json::Result<T> {
+    let mut deserializer = serde_json::Deserializer::from_str(json);
+    deserializer.disable_recursion_limit();
+    let value = T::deserialize(&mut deserializer)?;
+    deserializer.end()?;
+    Ok(value)
 }
 
 fn reject_reserved_package_name(package: &str) -> Result<(), CompilationError> {
@@ -283,7 +294,7 @@ pub fn build_package(opts: PackageInputs) -> Result<CoreUnit, CompilationError> 
 pub fn read_core(path: &Path) -> Result<CoreUnit, CompilationError> {
     let json = fs::read_to_string(path)
         .map_err(|err| compile_error(format!("failed to read {}: {}", path.display(), err)))?;
-    let unit: CoreUnit = serde_json::from_str(&json)
+    let unit: CoreUnit = from_json_any_depth(&json)
         .map_err(|err| compile_error(format!("failed to parse {}: {}", path.display(), err)))?;
     if !unit.validate() {
         return Err(compile_error(format!(
